@@ -198,7 +198,7 @@ def run(chk, replay=None):
         "seed_positions": sum(o["positions"] for o in posl),
         "one_step_documents_planned": sum(o["plans"] for o in posl),
         "one_step_documents_run": len(onestep),
-        "one_step_every_position": "DeleteChild Rename at every element; "
+        "one_step_every_position": "DeleteChild Rename MoveText at every element, Renamespace at every element with element children; "
                                    "DropAttr at every attribute and character-data position, NegativeAttr/NonNumericAttr at every "
                                    "numeric one (NonNumericAttr at every character-data position), UnknownEnum at every word-like one; "
                                    + ("sampled: DuplicateChild SwapSiblings MoveUnderSibling Renamespace Nest(3) EmptyAttr at every 3rd position, "
